@@ -41,6 +41,9 @@ mod test_vectors;
 
 pub use verify::{Error, is_valid_solution};
 
+#[cfg(zcash_librustzcash_verif)]
+pub use verify::verif_hooks;
+
 #[cfg(feature = "solver")]
 mod blake2b;
 #[cfg(feature = "solver")]
